@@ -36,7 +36,8 @@ func init() {
 		Explanation: "Decides write-ordering necessary conditions for crash safety (no crash is simulated): (objects-before-refs) Remote.fetch never updates local references before the pack was fetched, Worktree.Commit never moves HEAD " +
 			"before the tree and commit objects are built; (pack-publish) in PackWriter.save no sidecar file (.idx/.rev/.promisor) is created after the .pack rename; (delete-after-close) createNewObjectPack deletes loose objects only after the pack " +
 			"writer's Close succeeded and RepackObjects deletes old packs only after createNewObjectPack succeeded; (publish-by-rename) every file creation/truncation in storage/filesystem/dotgit targets a temp file that is later renamed, an append-only log, " +
-			"or is listed as a known finding (index, config, shallow, loose refs, packed-refs fallbacks, pack sidecars are written in place); (flushed-before-publish) a bufio.Writer over a file that the function then puts in place is flushed by a non-deferred call on every path before the publishing call. Not decided: behaviour at each crash prefix, torn writes, fsync.",
+			"or is listed as a known finding (index, config, shallow, loose refs, packed-refs fallbacks, pack sidecars are written in place); (flushed-before-publish) a bufio.Writer over a file that the function then puts in place is flushed by a non-deferred call on every path before the publishing call; (deferred-error-reaches-result) in dotgit, storage/filesystem and " +
+			"package git an error stored by a deferred call for a handle opened for writing lands in a named result. Not decided: behaviour at each crash prefix, torn writes, fsync.",
 		Assumptions: []string{"rename is atomic on the underlying filesystem"},
 		Run:         runC21,
 	})
@@ -44,6 +45,7 @@ func init() {
 		ID: "C22",
 		Explanation: "Decides the root-set and guard shape of garbage collection: (gc-root-set) the object walk used by Prune and RepackObjects reaches ReferenceStorer.IterReferences and IndexStorer.Index, and both callers delete only after it succeeded; " +
 			"(prune-only-unseen) Prune hands an object to the handler only on the !isSeen edge, repack deletes a loose object only on the isSeen edge; (old-pack-kept-if-same) RepackObjects never deletes the pack it just wrote. " +
+			"(deletion-set-fixed-before-walk) RepackObjects lists the packs it will delete before it builds the new pack, so a pack stored by another writer during the walk is not deleted. " +
 			"Not decided: that the walk visits every reachable object; reflog roots.",
 		Assumptions: []string{"IterReferences lists HEAD and every reference"},
 		Run:         runC22,
@@ -728,6 +730,9 @@ func runC21(c *Ctx) {
 		return
 	}
 	info := gitPk.TypesInfo
+	// deferred-error-reaches-result: an operation whose last write failed at Flush/Close must not report success
+	nDef := DeferredErrorsReachResult(c, "deferred-error-reaches-result", dotgitShort, "git", "storage/filesystem")
+	c.Check(nDef >= 5, "deferred-error-reaches-result", "writers", 0, itoa(nDef)+" functions that close or flush a write handle in a deferred call examined")
 	const r1 = "objects-before-refs"
 	if fe := c.MustFunc(r1, "git.(*Remote).fetch"); fe != nil {
 		f := p.FlowOf(fe)
@@ -1088,5 +1093,20 @@ func runC22(c *Ctx) {
 			}
 			return (be.Op == token.EQL && !fact.Truth) || (be.Op == token.NEQ && fact.Truth)
 		}), callsNamed(info, "DeleteOldObjectPackAndIndex"), "the old pack's hash differing from the new pack's")
+		// deletion-set-fixed-before-walk: the packs to delete are listed before the new pack is built (before the
+		// reachability walk). A pack that another writer stores while the walk runs is then not in the list; listed
+		// afterwards, it would be deleted although its objects were never walked into the new pack.
+		f := p.FlowOf(rp)
+		build := f.Locs(CallNode(false, callsNamed(info, "createNewObjectPack")))
+		lists := CallNode(false, callsNamed(info, "ObjectPacks"))
+		var h *Hit
+		for _, b := range build {
+			if hh := f.Search(SearchOpts{Starts: []Loc{After(b)}, Sink: lists}); hh != nil {
+				h = hh
+			}
+		}
+		c.Check(h == nil && len(build) > 0 && len(f.Locs(lists)) > 0, "deletion-set-fixed-before-walk", rp.Name(), rp.Decl.Pos(), orStr(ifStr(h != nil, "the packs to delete are listed after the new pack was built: a pack received while the walk ran is deleted although nothing of it was copied"+hitLines(f, h)),
+			"the packs to delete are listed before the new pack is built"))
 	}
+	c.Floor("deletion-set-fixed-before-walk", 1)
 }
